@@ -77,6 +77,7 @@ type Graph struct {
 	Order   []string // creation order
 	Invalid string   // model cannot be turned into a weighted graph (TTU rules)
 	Plain   bool     // plain-graph mode: an unusable TTU parent contributes no edge instead of an error
+	Reach   bool     // Analyse got as far as the reach sets (they are valid even when the verdict is negative)
 	model   *openfgav1.AuthorizationModel
 }
 
@@ -421,6 +422,7 @@ func (g *Graph) Analyse() Verdict {
 			n.R = nr
 		}
 	}
+	g.Reach = true
 	for _, id := range g.Order {
 		n := g.Nodes[id]
 		if n.Kind == KInter && len(n.R) == 0 {
